@@ -1,2 +1,5 @@
 // ASSUMED[usize-64]: the target has 64-bit usize/isize (x86_64 / aarch64 Linux, the only targets rivia's nix dependency is built for here)
 global size_of usize == 8;
+// ASSUMED[std-result-option]: Result::unwrap_or / Result::ok / Result::is_err as documented in std (not specified by this vstd)
+pub assume_specification<T, E>[ Result::<T, E>::unwrap_or ](r: Result<T, E>, d: T) -> (o: T)
+    ensures o == (match r { Ok(v) => v, Err(_) => d });
